@@ -283,7 +283,9 @@ static std::string run_program(Prog const& p, int index, Quiescence& q)
             if (prs[i]->send_signals.load() != 1) { err = where + "send " + std::to_string(i) + " signalled " + std::to_string(prs[i]->send_signals.load()) + " times"; break; }
             if (prs[i]->bad_payload.load()) { err = where + "receive " + std::to_string(i) + " (" + std::to_string(prs[i]->rbuf.size()) + " bytes) was signalled before the data was completely visible"; break; }
         }
-    (void) q;
+    // the detector samples pool state while the main thread is parked in pika::wait(): it must have left its sampling (and must not start
+    // another one) before the pools are torn down -- a snapshot that overlapped pika::stop() crashed twice in one overloaded run
+    q.enter_stop_mode([] { return true; });
     pika::finalize();
     pika::stop();
     return err;
